@@ -2095,6 +2095,14 @@ class Interp:
                 if a[1] == 0:
                     raise PyRaise("ZeroDivisionError", node, "integer division or modulo by zero")
                 return divmod(a[0], a[1])
+            x_, y_ = simplify_num(a[0]) if is_num(a[0]) else a[0], simplify_num(a[1]) if is_num(a[1]) else a[1]
+            if isinstance(x_, (int, Fraction)) and isinstance(y_, (int, Fraction)) and not isinstance(x_, bool) and not isinstance(y_, bool):
+                if y_ == 0:
+                    raise PyRaise("ZeroDivisionError", node, "float divmod()")
+                import math as _m
+                q_ = _m.floor(Fraction(x_) / Fraction(y_))
+                r_ = Fraction(x_) - Fraction(y_) * q_
+                return (q_, int(r_) if r_.denominator == 1 else r_)
             raise Undecided("divmod on non-integers")
         if name == "reversed":
             return list(reversed(self.iterate(a[0])))
